@@ -229,8 +229,10 @@ static void compare_runs(const Config &c, long seed, const Files &ref, const Fil
 static void section_a(const Args &A, Result &R, const std::string &tmp, const std::string &only_cfg, long only_seed,
                       bool verbose) {
   std::vector< long > seeds = {42};
-  if (A.thorough())
+  if (A.thorough()) {
     seeds.push_back(1);
+    seeds.push_back(16843050); // 2^24 + 2^16 + 2^8 + 42: non-zero bits in every byte
+  }
   if (!only_cfg.empty())
     seeds = {only_seed};
   const int n = (int)NCONFIG;
@@ -354,7 +356,7 @@ static void section_a(const Args &A, Result &R, const std::string &tmp, const st
     }
     // non-vacuity: photons changed the state; different seeds differ
     const std::string &first = ref.begin()->second, &last = ref.rbegin()->second;
-    const uint64_t fh = fnv1a(content_key(ref.rbegin()->first, last));
+    const uint64_t fh = fnv1a(content_key(ref.rbegin()->first, last, true));
     const bool changed = first != last;
     if (!changed)
       R.violation(fmt("C13:harness:run-changes-nothing:%s", c.name),
@@ -370,8 +372,8 @@ static void section_a(const Args &A, Result &R, const std::string &tmp, const st
     for (auto &jp : r.after)
       if (jp.second.cfg == r.cfg && jobs[jp.first].ran && jobs[jp.first].rc == 0 &&
           jobs[jp.first].out[0].size() == ref.size() &&
-          content_key(ref.rbegin()->first, jobs[jp.first].out[0].rbegin()->second) ==
-              content_key(ref.rbegin()->first, last))
+          content_key(ref.rbegin()->first, jobs[jp.first].out[0].rbegin()->second, true) ==
+              content_key(ref.rbegin()->first, last, true))
         R.violation(fmt("C13:harness:seed-has-no-effect:%s", c.name),
                     fmt("configuration %s: seeds %ld and %ld give the same final snapshot", c.name, r.seed,
                         r.seed + 1),
